@@ -45,6 +45,14 @@ inline std::string payload(int i) {
 
 // ------------------------------------------------------------------ /proc helpers
 std::vector<int> listTids(); // kernel tids of this process, sorted
+struct TidStat {
+  char state = 0; // 0 when /proc/self/task/<tid> is gone, else the state letter (R S D Z X t ...)
+  long ticks = 0; // utime + stime in clock ticks
+  long long start = 0; // start time of the thread in clock ticks since boot: (tid, start) identifies a
+                       // thread even if the kernel recycles the tid (a recycle needs a full wrap of the
+                       // pid space, which takes far longer than one tick)
+};
+TidStat tidStat(int tid);
 char tidState(int tid); // 0 when /proc/self/task/<tid> is gone, else the state letter
 inline bool tidLive(int tid) {
   char s = tidState(tid);
